@@ -22,6 +22,9 @@ pub enum Msg {
     Edit2 { changes: Value },
     /// a didChange for a document the server does not track (an `untitled:` buffer)
     EditUntracked,
+    /// any other notification that leaves the client's text as it is (didClose, didOpen with the
+    /// text the client has at that point, ...)
+    Notify { method: &'static str, params: Value },
 }
 
 #[derive(Clone, Debug)]
@@ -68,6 +71,9 @@ pub fn scenarios() -> Vec<Scenario> {
         Scenario { name: "edit-then-untracked-edit", v1, msgs: vec![edit(0, 12, 0, 13, ""), Msg::EditUntracked], v2: None },
         // two open documents: an edit of one cancels the running diagnostics of the other; both must end with the diagnostics of their final texts
         Scenario { name: "two-documents-edit-each", v1, msgs: vec![edit(0, 12, 0, 13, ""), Msg::Edit2 { changes: json!([{"range": {"start": {"line": 0, "character": 0}, "end": {"line": 0, "character": 0}}, "text": "// c\n"}]) }], v2: Some("pub fn other( {\n  1\n}\n") },
+        // the document is closed and opened again with the same (broken) text: its diagnostics must be published again
+        Scenario { name: "close-then-reopen", v1: v_err, msgs: vec![Msg::Notify { method: "textDocument/didClose", params: json!({"textDocument": {"uri": doc_uri()}}) }, Msg::Notify { method: "textDocument/didOpen", params: json!({"textDocument": {"uri": doc_uri(), "languageId": "gleam", "version": 1, "text": v_err}}) }], v2: None },
+        Scenario { name: "close-reopen-then-edit-after-the-error", v1: v_err, msgs: vec![Msg::Notify { method: "textDocument/didClose", params: json!({"textDocument": {"uri": doc_uri()}}) }, Msg::Notify { method: "textDocument/didOpen", params: json!({"textDocument": {"uri": doc_uri(), "languageId": "gleam", "version": 1, "text": v_err}}) }, edit(1, 2, 1, 3, "2")], v2: None },
         Scenario { name: "refs-edit-completion", v1, msgs: vec![Msg::Req { method: "textDocument/references", params: json!({"textDocument": {"uri": doc_uri()}, "position": {"line": 4, "character": 4}, "context": {"includeDeclaration": true}}) }, edit(5, 2, 5, 3, "x * 2 + x"), Msg::Req { method: "textDocument/completion", params: tdp(1, 3) }], v2: None },
         Scenario { name: "rename-edit-tokens", v1, msgs: vec![Msg::Req { method: "textDocument/rename", params: json!({"textDocument": {"uri": doc_uri()}, "position": {"line": 4, "character": 4}, "newName": "cccc"}) }, edit(3, 0, 3, 0, "\n"), Msg::Req { method: "textDocument/semanticTokens/full", params: json!({"textDocument": {"uri": doc_uri()}}) }], v2: None },
         Scenario { name: "definition-edit-edit-tree", v1, msgs: vec![Msg::Req { method: "textDocument/definition", params: tdp(1, 3) }, edit(0, 0, 0, 0, "\n"), edit(0, 0, 1, 0, ""), Msg::Req { method: "glas/syntaxTree", params: json!({"textDocument": {"uri": doc_uri()}}) }], v2: None },
@@ -230,6 +236,9 @@ fn send_msg(p: &mut Proc, sc: &Scenario, i: usize) {
         }
         Msg::EditUntracked => {
             p.send(&json!({"jsonrpc": "2.0", "method": "textDocument/didChange", "params": {"textDocument": {"uri": "untitled:Untitled-1", "version": 2 + i}, "contentChanges": [{"text": "fn u() { 1 }\n"}]}}));
+        }
+        Msg::Notify { method, params } => {
+            p.send(&json!({"jsonrpc": "2.0", "method": method, "params": params}));
         }
     }
 }
@@ -448,6 +457,10 @@ pub fn sequential(sc: &Scenario) -> Result<Sequential, String> {
                 p.send(&json!({"jsonrpc": "2.0", "method": "textDocument/didChange", "params": {"textDocument": {"uri": "untitled:Untitled-1", "version": 2 + i}, "contentChanges": [{"text": "fn u() { 1 }\n"}]}}));
                 settle(&mut p, &mut out);
             }
+            Msg::Notify { method, params } => {
+                p.send(&json!({"jsonrpc": "2.0", "method": method, "params": params}));
+                settle(&mut p, &mut out);
+            }
             Msg::Edit2 { changes } => {
                 let version2 = 2 + sc.msgs[..i].iter().filter(|m| matches!(m, Msg::Edit2 { .. })).count();
                 p.send(&json!({"jsonrpc": "2.0", "method": "textDocument/didChange", "params": {"textDocument": {"uri": doc2_uri(), "version": version2}, "contentChanges": changes}}));
@@ -470,7 +483,25 @@ pub fn sequential(sc: &Scenario) -> Result<Sequential, String> {
         return Err("no canary answer in the sequential session".into());
     }
     let final_text = out.responses[&900][0]["result"].as_str().map(tree_text).unwrap_or_default();
-    Ok(Sequential { results, final_diags: out.diags.last().cloned().unwrap_or(Value::Null), final_diags2: out.diags2.last().cloned().unwrap_or(Value::Null), final_text })
+    // the diagnostics of the final text are those a FRESH server publishes on opening that text
+    // (what this session published last depends on its history, which is the thing under test)
+    let mut final_diags = out.diags.last().cloned().unwrap_or(Value::Null);
+    if sc.v2.is_none() && sc.msgs.iter().any(|m| matches!(m, Msg::Notify { .. })) {
+        let text: &'static str = Box::leak(client_final_text(sc).into_boxed_str());
+        let fresh_sc = Scenario { name: "fresh", v1: text, msgs: vec![], v2: None };
+        let mut q = Proc::spawn(&[]).map_err(|e| e.to_string())?;
+        let mut fo = RunOut::default();
+        prologue(&mut q, &fresh_sc);
+        if !pump(&mut q, None, &mut fo, Instant::now() + Duration::from_secs(20), |o| o.responses.contains_key(&1) && !o.diags.is_empty()) {
+            return Err("fresh session for the final text failed".into());
+        }
+        settle(&mut q, &mut fo);
+        final_diags = fo.diags.last().cloned().unwrap_or(Value::Null);
+        q.send(&json!({"jsonrpc": "2.0", "method": "exit", "params": null}));
+        q.close_stdin();
+        let _ = q.wait_exit(Duration::from_secs(2));
+    }
+    Ok(Sequential { results, final_diags, final_diags2: out.diags2.last().cloned().unwrap_or(Value::Null), final_text })
 }
 
 fn norm(v: &Value) -> String {
@@ -512,13 +543,16 @@ pub fn edit_during_request_probes() -> Vec<(String, Vec<(String, String)>)> {
         ("glas/syntaxTree", json!({"textDocument": td()})),
     ];
     let _ = std::fs::create_dir_all(crate::core::verif_root().join(".scratch/c16/ws"));
-    kinds
+    // where the request's task stands when the edit arrives: inside its query (C, T, C, T: task
+    // start -> store read -> in query), before it has read the document store (C, T, C), not started (C, C)
+    let stages: [(&str, &[usize]); 3] = [("", &[0, 1, 0, 1]), (" [task before its store read]", &[0, 1, 0]), (" [task not started]", &[0, 0])];
+    let jobs: Vec<(&'static str, Value, &str, &[usize])> = kinds.iter().flat_map(|(m, p)| stages.iter().map(move |(sn, pre)| (*m, p.clone(), *sn, *pre))).collect();
+    jobs
         .into_par_iter()
-        .map(|(method, params)| {
+        .map(|(method, params, stage, prefix)| {
             let sc = Scenario { name: "edit-during-request", v1, msgs: vec![Msg::Req { method, params }, edit(0, 0, 0, 0, "// c\n\n")], v2: None };
-            // C (request), then the task up to its in-query point (task:start -> store read -> in query), then C (edit)
-            let out = run_schedule(&sc, &[0, 1, 0, 1]);
-            let reached = out.trace.iter().any(|(t, p)| t.starts_with('T') && p == "task:in_query");
+            let out = run_schedule(&sc, prefix);
+            let reached = stage != "" || out.trace.iter().any(|(t, p)| t.starts_with('T') && p == "task:in_query");
             let mut problems: Vec<(String, String)> = out.problems.iter().filter(|(c, _)| c != "machinery").cloned().collect();
             for (c, d) in out.problems.iter().filter(|(c, _)| c == "machinery") {
                 // a request that never enters a query (syntax tree) makes the fixed prefix diverge: not a finding
@@ -544,7 +578,7 @@ pub fn edit_during_request_probes() -> Vec<(String, Vec<(String, String)>)> {
             if !problems.iter().any(|p| p.0 == "server-died") && out.responses.get(&id).map_or(true, |r| r.len() != 1) {
                 problems.push(("request-not-answered-once".into(), format!("{method}: {} responses", out.responses.get(&id).map_or(0, |r| r.len()))));
             }
-            (format!("{method}{}", if reached { "" } else { " (no query checkpoint reached)" }), problems)
+            (format!("{method}{stage}{}", if reached { "" } else { " (no query checkpoint reached)" }), problems)
         })
         .collect()
 }
@@ -717,7 +751,7 @@ pub fn run(tier: Tier) -> i32 {
                 rep.violation(v);
             }
         }
-        l.bound = format!("all interleavings of the client's sends (C), the main loop's and the blocking tasks' yield points with <= {bound} preemptions (a send is a voluntary yield of the client); {} messages ({}); longest run {max_points} scheduling decisions; {rounds} deviation rounds", sc.msgs.len(), sc.msgs.iter().map(|m| match m { Msg::Req { method, .. } => method.rsplit('/').next().unwrap_or(method).to_string(), Msg::Edit { .. } => "didChange".into(), Msg::Edit2 { .. } => "didChange(other document)".into(), Msg::EditUntracked => "didChange(untracked document)".into() }).collect::<Vec<_>>().join(", "));
+        l.bound = format!("all interleavings of the client's sends (C), the main loop's and the blocking tasks' yield points with <= {bound} preemptions (a send is a voluntary yield of the client); {} messages ({}); longest run {max_points} scheduling decisions; {rounds} deviation rounds", sc.msgs.len(), sc.msgs.iter().map(|m| match m { Msg::Req { method, .. } => method.rsplit('/').next().unwrap_or(method).to_string(), Msg::Edit { .. } => "didChange".into(), Msg::Edit2 { .. } => "didChange(other document)".into(), Msg::EditUntracked => "didChange(untracked document)".into(), Msg::Notify { method, .. } => method.rsplit('/').next().unwrap_or(method).to_string() }).collect::<Vec<_>>().join(", "));
         rep.layer(l);
     }
     rep.distinct_nontrivial = distinct_traces.len() as u64;
